@@ -1144,5 +1144,5 @@ MANIFEST = {
              "the crate's documented deviations, independent of state/codegen.rs); the HIR idiom normaliser. Not decided: "
              "functional correctness of Params/ParamsIter index arithmetic and OSC slice bookkeeping beyond shape, UTF-8 "
              "decoding (utf8parse)."),
-    "technique": "static analysis: const-evaluated table vs independent spec, case-wise path feasibility over the state/action enums (perform_state_change), abstract evaluation per parser state (advance, process_utf8), over opaque table cells (state_change) and over a symbolic entry state with offsets compared as polynomials (Params push/extend/next), interval proofs with inductive field invariants for the bounded arrays, match-table extraction, who-may-write",
+    "technique": "static analysis: const-evaluated table vs independent spec, case-wise path feasibility over the state/action enums (perform_state_change), abstract evaluation per parser state (advance, process_utf8), over opaque table cells (state_change) and over a symbolic entry state with offsets compared as polynomials (Params push/extend/next), the OSC bookkeeping arms for every parameter count 0..=16, interval proofs with inductive field invariants for the bounded arrays, match-table extraction, who-may-write",
 }
